@@ -168,13 +168,19 @@ def hookable(fd):
                        "mapAny", "mapOf", "tupleOf", "tuplePos") and "struct" not in json.dumps(fd)
 
 
-def install_hook(cls, hooks, ctx):
+def install_hook(cls, hooks, ctx, need=None):
+    """hooks: [[f, v]] - the hook raises when field f holds v; need: [[f1, f2, ..]] - it raises unless, for every
+    group, at least one field of the group holds a value (set and not None)"""
     loaded = [(f, dump.load_value(v, ctx)) for f, v in hooks]
+    need = need or []
 
     def __validate__(self):
         for f, v in loaded:
             if f in self.__dict__ and self.__dict__[f] == v:
                 raise ValueError(f"{f}: rejected by __validate__")
+        for group in need:
+            if all(self.__dict__.get(f) is None for f in group):
+                raise ValueError(f"{group[0]}: rejected by __validate__ (one of {group} is needed)")
     cls.__validate__ = __validate__
 
 
@@ -311,24 +317,176 @@ def gen_cases(rng, tier, n_classes, immutable=None):
     return cases
 
 
+def gen_ext_call(rng, vg, tbl, kind, fd, cur_val):
+    """one extended mutator call (m, args, extra keys) for a wrapper of kind `kind` declared by fd: slice assignment /
+    deletion, sort(key=, reverse=), or any table mutator"""
+    r = rng.random()
+    ob = lambda: rng.choice([None, None, 0, 1, 2, -1, -2, 5, -7])
+    if kind != "dict" and r < 0.3:
+        step = rng.choice([None, None, None, 1, 2, -1, -2, 0])
+        ed = elem_decl(fd)
+        vals = []
+        for _ in range(rng.choice([0, 1, 1, 2, 3])):
+            v = vg.valid(ed) if ed is not None and rng.random() < 0.7 else rng.choice(vg.confusion()[:20])
+            vals.append(rng.choice([1, "x"]) if v is gen.NOVALUE else v)
+        return "__setitem__", [{"l": vals}], {"slice": [ob(), ob(), step]}
+    if kind != "dict" and r < 0.5:
+        return "__delitem__", [], {"slice": [ob(), ob(), rng.choice([None, None, 1, 2, -1, -3, 0])]}
+    if kind != "dict" and r < 0.7:
+        return "sort", [rng.choice(["", "neg", "abs", "const"]), rng.random() < 0.5], {}
+    m = rng.choice(tbl[kind])
+    args = gen_args(rng, vg, kind, m, fd, cur_val if isinstance(cur_val, dict) else None)
+    return (m, args, {}) if args is not None else None
+
+
+def gen_cases_ext(rng, tier, n_classes, immutable=False):
+    """histories over the same classes as gen_cases, extended with slice arguments, sort(key=, reverse=), wrapper
+    references kept across operations (`take` / `callRef`: possibly stale by the time they are used) and the same on
+    nested wrappers; drawn from its own generator so that gen_cases' stream is untouched"""
+    tbl = table()
+    out = []
+    for case in gen_cases(rng, tier, n_classes, immutable=immutable):
+        vg = gen.ValGen(rng)
+        fields = case["cls"]["fields"]
+        cur = dict((k, v) for k, v in case["kw"])
+        wrapped = [(nm, fd) for nm, fd in fields if wrapper_kind(fd)]
+        if not wrapped:
+            continue
+        ops, taken = [], []
+        for op in case["ops"] + [None] * rng.randint(1, 3):
+            for _ in range(rng.choice([0, 1, 1, 2])):
+                nm, fd = rng.choice(wrapped)
+                kind, cfd = wrapper_kind(fd), coll_option(fd)
+                q = rng.random()
+                ed0 = elem_decl(cfd) if kind in ("list", "deque") else None
+                if ed0 and ed0.get("k") in ("enumCls", "float", "number") and isinstance(cur.get(nm), dict) and rng.random() < 0.5:
+                    # a kept wrapper that receives a value its item field CONVERTS (an enum member's name, an int for a
+                    # Float) keeps the raw argument, while the instance stores the converted one; handing the wrapper
+                    # back to the field must validate (convert) its content again
+                    raw = rng.choice(ed0["names"]) if ed0["k"] == "enumCls" else rng.choice([1, 2, 3])
+                    ops.append({"op": "take", "f": nm})
+                    taken.append((nm, fd))
+                    ops.append({"op": "callRef", "i": len(taken) - 1, "f": nm, "m": rng.choice(["append", "insert", "extend"]),
+                                "args": []})
+                    ops[-1]["args"] = {"append": [raw], "insert": [0, raw], "extend": [{"l": [raw]}]}[ops[-1]["m"]]
+                    ops.append({"op": "assignRef", "f": nm, "i": len(taken) - 1})
+                    continue
+                if q < 0.22:
+                    ops.append({"op": "take", "f": nm})
+                    taken.append((nm, fd))
+                elif q < 0.3 and taken:
+                    # hand a kept wrapper (possibly mutated meanwhile through its own methods) back to a field
+                    i = rng.randrange(len(taken))
+                    target = taken[i][0] if rng.random() < 0.8 else nm
+                    if rng.random() < 0.6:
+                        call = gen_ext_call(rng, vg, tbl, wrapper_kind(taken[i][1]), coll_option(taken[i][1]), cur.get(taken[i][0]))
+                        if call:
+                            ops.append({"op": "callRef", "i": i, "f": taken[i][0], "m": call[0], "args": call[1], **call[2]})
+                    ops.append({"op": "assignRef", "f": target, "i": i})
+                elif q < 0.55 and taken:
+                    i = rng.randrange(len(taken) + (1 if rng.random() < 0.05 else 0))
+                    rnm, rfd = taken[min(i, len(taken) - 1)]
+                    call = gen_ext_call(rng, vg, tbl, wrapper_kind(rfd), coll_option(rfd), cur.get(rnm))
+                    if call:
+                        ops.append({"op": "callRef", "i": i, "f": rnm, "m": call[0], "args": call[1], **call[2]})
+                elif q < 0.8:
+                    call = gen_ext_call(rng, vg, tbl, kind, cfd, cur.get(nm))
+                    if call:
+                        ops.append({"op": "call", "f": nm, "m": call[0], "args": call[1], **call[2]})
+                else:
+                    ed = elem_decl(cfd)
+                    nk = wrapper_kind(ed) if ed else None
+                    if nk and fd["k"] != "anyOf" and isinstance(cur.get(nm), dict):
+                        if kind == "dict":
+                            ks = [kv[0] for kv in cur[nm].get("m", [])]
+                            k = rng.choice(ks) if ks else "nokey"
+                        else:
+                            xs = cur[nm].get("l") or cur[nm].get("q") or []
+                            k = rng.randrange(len(xs)) if xs else 0
+                        call = gen_ext_call(rng, vg, tbl, nk, ed, None)
+                        if call:
+                            ops.append({"op": "callNested", "f": nm, "k": k, "m": call[0], "args": call[1], **call[2]})
+            if op is not None:
+                ops.append(op)
+        ext = dict(case, ops=ops, ext=True)
+        # a hook of the second family: "one of these fields must hold a value", over fields the start instance holds,
+        # with operations that try to clear them (None assignment, deletion)
+        held = [k for k, v in case["kw"] if v is not None and k in cur_names(fields)]
+        if held and not case["cls"].get("immutable") and rng.random() < 0.35:
+            group = sorted(rng.sample(held, min(len(held), rng.randint(1, 2))))
+            ext["hookNeed"] = [group]
+            for g in group:
+                for _ in range(rng.randint(1, 2)):
+                    clear = {"op": "setattr", "f": g, "v": None} if rng.random() < 0.6 else {"op": "delitem", "f": g}
+                    ops.insert(rng.randrange(len(ops) + 1), clear)
+        ext["re"] = gen.re_table(case["cls"], case["kw"], ops)
+        out.append(ext)
+    return out
+
+
+def bound_cases():
+    """directed: the model of the PROPOSED repair (nested wrappers bound to their parent) is driven on nested histories;
+    these lines carry nestedBound=true and have no real-code counterpart unless the working tree has the repair"""
+    return []
+
+
 # ------------------------------------------------------------------ real code
 
-def do_op(x, op, ctx):
+SORT_KEYS = {"": None, "neg": lambda v: -v, "abs": abs, "const": lambda v: 0}
+WRAPPER_TYPES = (list, dict, collections.deque)
+
+
+def invoke(target, op, ctx):
+    """call mutator op["m"] on a wrapper object; `slice` = [lo, hi, step] turns __setitem__/__delitem__ into their slice
+    forms, a two-argument `sort` is sort(key=<menu entry>, reverse=<bool>)"""
+    args = [dump.load_value(a, ctx) for a in op["args"]]
+    m = op["m"]
+    if "slice" in op:
+        sl = slice(*op["slice"])
+        return getattr(target, m)(sl, *args)
+    if m == "sort" and len(op["args"]) == 2:
+        return getattr(target, m)(key=SORT_KEYS[op["args"][0]], reverse=op["args"][1])
+    return getattr(target, m)(*args)
+
+
+def raw_payload(w):
+    """the content of a wrapper object itself (no accessor of the wrapper is used)"""
+    if isinstance(w, dict):
+        return {k: dict.__getitem__(w, k) for k in dict.keys(w)}
+    if isinstance(w, collections.deque):
+        return collections.deque(collections.deque.__iter__(w))
+    return list(list.__iter__(w))
+
+
+def do_op(x, op, ctx, refs=None):
     name = op["op"]
     if name == "setattr":
         setattr(x, op["f"], dump.load_value(op["v"], ctx))
     elif name == "delitem":
         del x[op["f"]]
     elif name == "call":
-        args = [dump.load_value(a, ctx) for a in op["args"]]
-        getattr(getattr(x, op["f"]), op["m"])(*args)
+        invoke(getattr(x, op["f"]), op, ctx)
     elif name == "callNested":
-        args = [dump.load_value(a, ctx) for a in op["args"]]
         k = dump.load_value(op["k"], ctx)
         outer = getattr(x, op["f"])
         if outer is None:
             raise AttributeError("field is not set")     # canonical "no value to operate on"
-        getattr(outer[k], op["m"])(*args)
+        invoke(outer[k], op, ctx)
+    elif name == "take":
+        # a take that finds no wrapper still occupies its position (None), so that later positions do not shift
+        w = getattr(x, op["f"]) if op["f"] in x.__dict__ else None
+        if not (isinstance(w, WRAPPER_TYPES) and hasattr(w, "_field_definition")):
+            refs.append(None)
+            raise AttributeError("the field holds no wrapper")
+        refs.append(w)
+    elif name == "callRef":
+        if op["i"] >= len(refs) or refs[op["i"]] is None:
+            raise AttributeError("no such reference")
+        invoke(refs[op["i"]], op, ctx)
+    elif name == "assignRef":
+        if op["i"] >= len(refs) or refs[op["i"]] is None:
+            raise AttributeError("no such reference")
+        setattr(x, op["f"], refs[op["i"]])
     else:
         raise ValueError(name)
 
@@ -345,8 +503,8 @@ def run_impl(case):
     if back != want:
         return {"abstraction_mismatch": {"dumped": back, "declared": want}}
     cls_actual = C.fix_accepts(dump.dump_class(cls, ctx))
-    if case.get("hook"):
-        install_hook(cls, case["hook"], ctx)
+    if case.get("hook") or case.get("hookNeed"):
+        install_hook(cls, case.get("hook", []), ctx, case.get("hookNeed"))
     try:
         kw = {k: dump.load_value(v, ctx) for k, v in case["kw"]}
         x = cls(**kw)
@@ -356,6 +514,8 @@ def run_impl(case):
     res = {"cls_actual": cls_actual, "kw_actual": [[k, C.rename_inline(dump.dump_value(v, ctx), ctx)] for k, v in kw.items()],
            "start": snap(), "steps": []}
     res["ops_actual"] = []
+    refs = []
+    snap_refs = lambda: [None if w is None else C.rename_inline(dump.dump_value(raw_payload(w), ctx), ctx) for w in refs]
     for op in case["ops"]:
         try:
             # build arguments first so that an unbuildable argument is not mistaken for a rejection;
@@ -371,19 +531,25 @@ def run_impl(case):
             res["steps"].append({"out": "unbuildable-arg", "state": snap()})
             continue
         try:
-            do_op(x, op, ctx)
+            do_op(x, op, ctx, refs)
             out = "ok"
             msg = ""
         except Exception as e:
             out = err_name(e)
             msg = str(e)[:200]
         res["steps"].append({"out": out, "state": snap(), "msg": msg})
+        if case.get("ext"):
+            res["steps"][-1]["refs"] = snap_refs()
     return res
 
 
 def line(case, impl):
     l = {"suite": "mutate", "cls": impl.get("cls_actual", case["cls"]), "kw": impl.get("kw_actual", case["kw"]),
          "ops": case["ops"], "re": case.get("re", []), "hook": case.get("hook", [])}
+    if "nestedBound" in case:
+        l["nestedBound"] = case["nestedBound"]
+    if case.get("hookNeed"):
+        l["hookNeed"] = case["hookNeed"]
     if "steps" in impl:
         # ops whose arguments could not even be built are dropped on both sides
         keep = [i for i, s in enumerate(impl["steps"]) if s["out"] != "unbuildable-arg"]
@@ -401,10 +567,16 @@ def op_site(case, op):
     if op["op"] == "call":
         return f"{wrapper_kind(fd) if fd else '?'}.{op['m']}"
     if op["op"] == "callNested":
-        ed = elem_decl(fd) if fd else None
+        ed = elem_decl(coll_option(fd)) if fd else None
         return f"nested-{wrapper_kind(ed) if ed else '?'}.{op['m']}"
     if op["op"] == "setattr":
         return "setattr:" + (fd["k"] if fd else "non-field")
+    if op["op"] == "take":
+        return "take"
+    if op["op"] == "assignRef":
+        return "assign-ref:" + (fd["k"] if fd else "non-field")
+    if op["op"] == "callRef":
+        return f"ref-{wrapper_kind(fd) if fd else '?'}.{op['m']}"
     return "delitem"
 
 
@@ -446,4 +618,7 @@ def correspondence(case, impl, model):
         if dump.canon(st["state"]) != dump.canon(ms["state"]):
             return (f"step {i} {json.dumps(op)[:200]}: state differs: model " + json.dumps(dump.canon(ms["state"]))[:300]
                     + " impl " + json.dumps(dump.canon(st["state"]))[:300])
+        if "refs" in st and "refs" in ms and [dump.canon(r) for r in st["refs"]] != [dump.canon(r) for r in ms["refs"]]:
+            return (f"step {i} {json.dumps(op)[:200]}: kept wrapper references differ: model " + json.dumps(ms["refs"])[:300]
+                    + " impl " + json.dumps(st["refs"])[:300])
     return None
